@@ -298,6 +298,13 @@ func (p *parser) parseByteSequence() ([]byte, error) {
 		return nil, errors.New("structuredheader: missing closing '*'")
 	}
 	s := p.getString(len)
+	// "If b64_content contains a character not included in ALPHA, DIGIT, "+",
+	// "/" and "=", fail parsing." (encoding/base64 would silently skip CR and LF.)
+	for i := 0; i < len; i++ {
+		if !isBase64Char(s[i]) {
+			return nil, fmt.Errorf("structuredheader: invalid character %q in byte sequence", s[i])
+		}
+	}
 	enc := base64.StdEncoding
 	if len%4 != 0 {
 		// Allow unpadded encoding.
@@ -323,6 +330,11 @@ func isLCAlpha(c byte) bool {
 
 func isAlpha(c byte) bool {
 	return (c >= 'a' && c <= 'z') || (c >= 'A' && c <= 'Z')
+}
+
+// isBase64Char returns true if c is allowed inside a Byte Sequence.
+func isBase64Char(c byte) bool {
+	return isAlpha(c) || isDigit(c) || c == '+' || c == '/' || c == '='
 }
 
 // isKeyChar returns true if c is allowed in subsequent characters of Keys.
